@@ -66,7 +66,13 @@ class AliasGenerator:
         if context is None:
             raise ValueError("RenderContext cannot be None.")
 
-        alias_name = NameSanitizer.sanitize_class_name(base_name)
+        # base_name is normally the final class name chosen by the emitter (schema.generation_name). Sanitising a
+        # class name a second time is not idempotent ("AB5X" -> "Ab5X"), which made the alias differ from the
+        # name other modules import; only sanitise when it is not already usable as it stands.
+        if schema.generation_name and base_name == schema.generation_name and base_name.isidentifier():
+            alias_name = base_name
+        else:
+            alias_name = NameSanitizer.sanitize_class_name(base_name)
         target_type = self.type_service.resolve_schema_type(schema, context, required=True, resolve_underlying=True)
 
         # logger.debug(f"AliasGenerator: Rendering alias '{alias_name}' for target type '{target_type}'.")
